@@ -17,7 +17,7 @@ import z3
 
 from pyvc import api, symex
 from pyvc.api import I, R, SpecFn, Z, Zb, Arr, Opaque, simp, to_real, Outside
-from pyvc.symex import Contract
+from pyvc.symex import fresh,  Contract
 
 
 class Stats2:
@@ -318,3 +318,142 @@ def contract_have_stats():
         ensures=[("true_iff_at_least_one_vector", "TRUTH(result) == (HAVE() and COUNT() >= 1)")],
     )
     return c
+
+
+# ------------------------------------------------------------------------------------------ tensors (ranks 2 and 3, every axis)
+
+class STensor:
+    """N-D feature tensor of fixed rank: sizes symbolic; reductions over 'the other axes' are uninterpreted sums per coefficient"""
+
+    def __init__(self, dims, name="tensor", squared=False):
+        self.dims, self.name, self.squared = tuple(dims), name, squared
+
+    def sym_len(self):
+        return self.dims[0]
+
+    def sym_getattr(self, attr, ev, node):
+        if attr == "shape":
+            return tuple(self.dims)
+        if attr == "ndim":
+            return len(self.dims)
+        if attr == "sum":
+            def _sum(ev2, args, kwargs, node2):
+                axes = kwargs.get("axis", args[0] if args else None)
+                if not isinstance(axes, tuple) or not all(isinstance(a, int) for a in axes):
+                    raise Outside("tensor.sum axis form")
+                d = len(self.dims)
+                keep = [j for j in range(d) if j not in [a % d for a in axes]]
+                ev2.ex.oblige(ev2.st, len(keep) == 1 and len(set(a % d for a in axes)) == len(axes) == d - 1, f"reduces_all_axes_but_one.L{node2.lineno - ev2.ex.fx.lineno}", "spec", node2.lineno)
+                if len(keep) != 1:
+                    raise Outside("tensor.sum does not keep exactly one axis")
+                F = TSQ if self.squared else TSUM
+                f = z3.Int("tf!%d" % next(symex._fresh))
+                arr = ev2.st.new_root(self.dims[keep[0]], z3.Lambda([f], F(keep[0], f)), "float64", "fresh", "tsum")
+                ev2.st.ghost.setdefault("kept_axes", []).append(keep[0])
+                ev2.ex.assumption_ids.add("A-NP-RED")
+                return arr
+            return symex.PyCallable(_sum)
+        raise Outside(f"tensor attribute .{attr}")
+
+
+TSUM = z3.Function("sum_over_other_axes", I, I, R)       # (kept axis, coefficient) -> sum of the tensor's entries with that coefficient
+TSQ = z3.Function("sumsq_over_other_axes", I, I, R)     # ... of their squares
+
+
+def h_square_any(ex, st, args, kwargs, node, ev):
+    (a,) = args
+    if isinstance(a, STensor):
+        return STensor(a.dims, a.name, squared=True)
+    return h_square(ex, st, args, kwargs, node, ev)
+
+
+def h_prod(ex, st, args, kwargs, node, ev):
+    (t,) = args
+    if not isinstance(t, tuple):
+        raise Outside("np.prod form")
+    r = z3.IntVal(1)
+    for x in t:
+        r = r * Z(x)
+    r = simp(r)
+    if len(t) <= 1:
+        return r
+    p = fresh("prod")  # a name for the (non-linear) product: what is done with it afterwards is linear
+    st.assume(p == r)
+    return p
+
+
+def setup_acc_tensor(d, axis, have):
+    def setup(ex, st):
+        dims = [api.sym("n%d" % j) for j in range(d)]
+        st.assume(z3.And(*[x >= 1 for x in dims]))
+        st.env.update({"tensor": STensor(dims), "axis": axis})
+        keep = axis % d
+        n = dims[keep]
+        if have:
+            w = api.sym("stats_width")
+            st.assume(w >= 1)
+            stats = _mk_stats(st, w)
+        else:
+            stats = None
+        api.mk_obj(st, "self", "Standardize", {"_stats": stats, "_norm_var": "bool"})
+        other = z3.IntVal(1)
+        for j, x in enumerate(dims):
+            if j != keep:
+                other = other * x
+        # the number of vectors in the tensor, named so that integrality of the new count is a linear fact
+        P = api.sym("vectors_in_tensor")
+        st.assume(P == other)
+        st.ghost.update(R0=st.heap["row0"].content if have else z3.K(I, z3.RealVal(0)), R1=st.heap["row1"].content if have else z3.K(I, z3.RealVal(0)),
+                        N=n, OTHER=P, KEEP=keep)
+        ex.ctx = dict(n=n, have=have, keep=keep)
+        cnt0 = api.sym("count_before")
+        st.assume(cnt0 >= 0)
+        if have:
+            # class invariant on entry: the count cell holds a non-negative INTEGER
+            st.assume(z3.Select(st.ghost["R0"], w - 1) == z3.ToReal(cnt0))
+        else:
+            st.assume(cnt0 == 0)
+        st.ghost["INTCOUNT"] = z3.ToReal(cnt0 + P)
+        # squares are non-negative (A-NP-RED: a sum of squares)
+        f = z3.Int("qf")
+        st.assume(z3.ForAll([f], TSQ(keep, f) >= 0, patterns=[TSQ(keep, f)]))
+    return setup
+
+
+def contract_accumulate_tensor():
+    consts = dict(CONSTS)
+    consts.update({"TSUM": SpecFn(lambda ev, f: TSUM(ev.ex.ctx["keep"], Z(f))), "TSQ": SpecFn(lambda ev, f: TSQ(ev.ex.ctx["keep"], Z(f))),
+                   "KEPT_OK": SpecFn(lambda ev: ev.st.ghost.get("kept_axes", []) == [ev.ex.ctx["keep"]] * 2)})
+    c = Contract(
+        target="post:Standardize._accumulate_tensor",
+        uses=["A-REAL", "A-PYSEM", "A-NP-SLICE", "A-NP-RED"],
+        consts=consts,
+        handlers={"np.zeros": h_zeros, "np.square": h_square_any, "np.prod": h_prod, "arr_binop": h_arr_binop},
+        raises={"ValueError": "HAVE() and old(WIDTH()) != N + 1"},
+        ensures=[
+            ("width_is_chosen_axis_plus_one", "WIDTH() == N + 1"),
+            ("count_plus_number_of_vectors", "ROW0(N) == R0[N] + OTHER"),
+            ("sums_over_the_other_axes", "KEPT_OK() and forall(j, 0, N, ROW0(j) == R0[j] + TSUM(j))"),
+            ("squares_over_the_other_axes", "forall(j, 0, N, ROW1(j) == R1[j] + TSQ(j))"),
+            ("spare_cell_untouched", "ROW1(N) == R1[N]"),
+            ("inv_count_is_a_positive_integer", "ROW0(N) == INTCOUNT and INTCOUNT >= 1"),  # INTCOUNT is to_real of an integer term
+        ],
+    )
+    c.frame_empty_on_raise = True
+    c.no_param_writes = True
+    c.lazy_products = False
+    c.canaries = [("count_plus_one_only", "ROW0(N) == R0[N] + 1 and OTHER != 1")]
+    return c
+
+
+def tensor_labels():
+    return ["d%d_axis%d_%s" % (d, a, "have" if h else "first") for d in (2, 3) for a in range(-d, d) for h in (False, True)]
+
+
+def generate_tensor(prop, label):
+    import re
+    from contracts.registry import run_contract
+    m = re.match(r"d(\d)_axis(-?\d)_(have|first)", label)
+    d, a, h = int(m.group(1)), int(m.group(2)), m.group(3) == "have"
+    return run_contract(prop, ("post", "Standardize._accumulate_tensor"), contract_accumulate_tensor(), [(label, setup_acc_tensor(d, a, h))],
+                        name="std_accumulate_tensor", fname="Standardize._accumulate_tensor")
